@@ -201,6 +201,8 @@ BATTERY: list[tuple[str, str, str, list[list[str]]]] = [
     ("ex_uncaught_custom", "k: int", "if k:\n        raise MyErr('boom %d' % k)\n    return 0", [["0", "3"]]),
     ("ex_nested_fn", "k: int", "def inner(q: int) -> int:\n        if q > 2:\n            raise IndexError('inner %d' % q)\n        return q + k\n    return [inner(i) for i in range(k)]", [["0", "2", "4"]]),
     ("ex_with", "k: int", "log: list[str] = []\n    try:\n        with Ctxm(log, k == 2) as c:\n            log.append('body ' + c)\n            if k:\n                raise ValueError('in with')\n    except ValueError as e:\n        log.append('caught ' + str(e))\n    return log", [["0", "1", "2"]]),
+    ("pr_reflected_eq", "k: int", "del RLOG[:]\n    a: RfA = RfA(k)\n    b: RfA = RfB(k)\n    r = (a == b, b == a, a != b)\n    return (r, list(RLOG))", [["1"]]),
+    ("pr_call_sub", "k: int", "return PrB(k, [1])(3)", [["5"]]),
     ("ge_basic", "n: int", "return list(count_up(n))", [["0", "3"]]),
     ("ge_send_next", "n: int", "it = count_up(n)\n    a = next(it, -1)\n    b = next(it, -1)\n    return (a, b, list(it))", [["0", "1", "4"]]),
     ("ge_stopiteration", "n: int", "it = count_up(n)\n    next(it)\n    return next(it)", [["0", "1", "3"]]),
@@ -224,6 +226,29 @@ class Ctxm:
     def __exit__(self, a: object, b: object, c: object) -> bool:
         self.log.append('exit ' + ('None' if b is None else type(b).__name__))
         return self.swallow
+
+class PrA:
+    def __init__(self, key: int, items: list[int]) -> None:
+        self.key = key
+        self.items = items
+
+class PrB(PrA):
+    def __call__(self, x: int) -> int:
+        return self.key * x
+
+class RfA:
+    def __init__(self, key: int) -> None:
+        self.key = key
+    def __eq__(self, other: object) -> bool:
+        RLOG.append(type(self).__name__)
+        return isinstance(other, RfA) and other.key == self.key
+    def __hash__(self) -> int:
+        return 1
+
+class RfB(RfA):
+    pass
+
+RLOG: list[str] = []
 
 def count_up(n: int) -> Iterator[int]:
     i = 0
@@ -262,6 +287,12 @@ def known_shape(name: str, expr: str, interp: str, comp: str) -> str | None:
     if name == "lp_reassign_dict" and interp == "ok ['a', 'b']" and \
             comp == "exc RuntimeError: dictionary changed size during iteration":
         return "for-loop-sequence-variable-rebound-in-body"
+    if name == "pr_reflected_eq" and interp == "ok ((True, True, False), ['RfB', 'RfB', 'RfB'])" and \
+            comp == "ok ((True, True, False), ['RfA', 'RfB', 'RfA'])":
+        return "reflected-comparison-of-subclass-instance-not-tried-first"
+    if name == "pr_call_sub" and interp == "ok 15" and comp != interp:
+        # undefined behaviour (normally SIGSEGV): the subclass's object layout does not extend its base's
+        return "call-introduced-in-subclass-breaks-object-layout"
     if name == "ex_order" and interp != comp and interp.replace("True", "False") == comp:
         return "raise-from-clause-ignored"
     if name == "ex_cause" and interp != comp and comp == "ok ('NoneType', False, 'KeyError')":
